@@ -2,9 +2,14 @@ package c03
 
 import (
 	"fmt"
+	"io"
 	"os"
+	"os/exec"
 	"path/filepath"
 	"strings"
+	"syscall"
+	"time"
+	"unsafe"
 
 	"verifh/cmdx"
 	"verifh/core"
@@ -110,7 +115,7 @@ func runE2E(c *core.Ctx) {
 // the records of the files come out one file after the other, in order.
 func runE2EFiles(c *core.Ctx) {
 	nf := 2 + c.Rng.Intn(3)
-	var paths []string
+	var paths, texts []string
 	var want []string
 	var shape []int
 	for f := 0; f < nf; f++ {
@@ -129,13 +134,39 @@ func runE2EFiles(c *core.Ctx) {
 		os.WriteFile(p, []byte(sb.String()), 0o644)
 		defer os.Remove(p)
 		paths = append(paths, p)
+		texts = append(texts, sb.String())
+	}
+	// one case in three: one of the files is a named pipe filled by another process
+	pipeAt := -1
+	if c.Idx%3 == 1 {
+		pipeAt = c.Rng.Intn(nf)
 	}
 	for _, cfg := range [][2]int{{1, 100}, {4, 3}, {16, 1}} {
-		args := append([]string{"--no-progressbar", "--max-cpu", fmt.Sprint(cfg[0]), "--batch-size", fmt.Sprint(cfg[1])}, paths...)
+		runPaths := append([]string{}, paths...)
+		if pipeAt >= 0 {
+			fifo := paths[pipeAt] + ".fifo.fasta"
+			os.Remove(fifo)
+			if err := syscall.Mkfifo(fifo, 0o600); err == nil {
+				go func(text string) {
+					if f, err := os.OpenFile(fifo, os.O_WRONLY, 0); err == nil {
+						f.WriteString(text)
+						f.Close()
+					}
+				}(texts[pipeAt])
+				runPaths[pipeAt] = fifo
+				defer os.Remove(fifo)
+			}
+		}
+		args := append([]string{"--no-progressbar", "--max-cpu", fmt.Sprint(cfg[0]), "--batch-size", fmt.Sprint(cfg[1])}, runPaths...)
 		res := cmdx.Run(filepath.Join(c.BinDir, "obiconvert"), args, cmdx.Opt{})
+		if pipeAt >= 0 {
+			if f, err := os.OpenFile(runPaths[pipeAt], os.O_RDONLY|syscall.O_NONBLOCK, 0); err == nil {
+				f.Close() // unblocks the feeder if the command never opened the pipe
+			}
+		}
 		c.Count("evaluations", 1)
 		c.Count("command_runs", 1)
-		det := map[string]any{"files_record_counts": shape, "config": cfg, "exit": res.Exit, "stderr": cmdx.Diag(res.Stderr, 1500)}
+		det := map[string]any{"files_record_counts": shape, "config": cfg, "named_pipe_at": pipeAt, "exit": res.Exit, "stderr": cmdx.Diag(res.Stderr, 1500)}
 		cls := "no-empty-file"
 		for i, n := range shape {
 			if n == 0 {
@@ -163,7 +194,7 @@ func runE2EFiles(c *core.Ctx) {
 			c.Violate("files:output-unparsable", "the output is not FASTA", det)
 			continue
 		}
-		c.Key("files/%v/%v", shape, cfg)
+		c.Key("files/%v/%v/%d", shape, cfg, pipeAt)
 		if d := itx.CompareSeq(gen.IDsOf(got), want); d != "" {
 			det["got"] = len(got)
 			det["want"] = len(want)
@@ -279,4 +310,116 @@ func runE2EDir(c *core.Ctx) {
 		}
 	}
 	c.Sample(map[string]any{"link_to_directory": linkDirName, "link_to_file": linkFileName, "files": len(perFile)})
+}
+
+// openPty opens a pseudo terminal pair (Linux).
+func openPty() (master, slave *os.File, err error) {
+	master, err = os.OpenFile("/dev/ptmx", os.O_RDWR, 0)
+	if err != nil {
+		return nil, nil, err
+	}
+	var n uint32
+	var unlock int32
+	if _, _, e := syscall.Syscall(syscall.SYS_IOCTL, master.Fd(), syscall.TIOCSPTLCK, uintptr(unsafe.Pointer(&unlock))); e != 0 {
+		master.Close()
+		return nil, nil, e
+	}
+	if _, _, e := syscall.Syscall(syscall.SYS_IOCTL, master.Fd(), syscall.TIOCGPTN, uintptr(unsafe.Pointer(&n))); e != 0 {
+		master.Close()
+		return nil, nil, e
+	}
+	slave, err = os.OpenFile(fmt.Sprintf("/dev/pts/%d", n), os.O_RDWR|syscall.O_NOCTTY, 0)
+	if err != nil {
+		master.Close()
+		return nil, nil, err
+	}
+	return master, slave, nil
+}
+
+// runE2ETty: the commands run by a user at a terminal: the standard error is a (pseudo) terminal and
+// the progress bar is on, which inserts one more stage in the pipeline. Single and paired inputs:
+// every record (and every mate) comes out once, in order.
+func runE2ETty(c *core.Ctx) {
+	n := []int{3, 40, 700, 2500}[c.Idx%4]
+	paired := (c.Idx/4)%2 == 1
+	dir := filepath.Join(c.Dir, fmt.Sprintf("tty-%d", c.Idx))
+	os.MkdirAll(dir, 0o755)
+	defer os.RemoveAll(dir)
+	recs := itx.MkRecs(c.Rng, "r", n)
+	var f, r strings.Builder
+	var want []string
+	for _, x := range recs {
+		q := strings.Repeat("I", len(x.Seq))
+		fmt.Fprintf(&f, "@%s {\"k\":%d}\n%s\n+\n%s\n", x.ID, x.K, x.Seq, q)
+		fmt.Fprintf(&r, "@%s {\"k\":%d}\n%s\n+\n%s\n", x.ID, x.K, x.Seq, q)
+		want = append(want, x.ID)
+	}
+	fwd, rev, out := filepath.Join(dir, "fwd.fastq"), filepath.Join(dir, "rev.fastq"), filepath.Join(dir, "out.fastq")
+	os.WriteFile(fwd, []byte(f.String()), 0o644)
+	os.WriteFile(rev, []byte(r.String()), 0o644)
+	master, slave, err := openPty()
+	if err != nil {
+		c.Inconclusive("no pseudo terminal available: " + err.Error())
+		return
+	}
+	defer master.Close()
+	go io.Copy(io.Discard, master)
+	args := []string{"--max-cpu", fmt.Sprint([]int{1, 2, 8}[c.Rng.Intn(3)]), "--batch-size", fmt.Sprint([]int{1, 20, 1000}[c.Rng.Intn(3)]), "-o", out}
+	if paired {
+		args = append(args, "--paired-with", rev)
+	}
+	args = append(args, fwd)
+	cmd := exec.Command(filepath.Join(c.BinDir, "obiconvert"), args...)
+	cmd.Stderr = slave
+	done := make(chan error, 1)
+	if err := cmd.Start(); err != nil {
+		slave.Close()
+		c.Inconclusive("cannot start obiconvert")
+		return
+	}
+	slave.Close()
+	go func() { done <- cmd.Wait() }()
+	var werr error
+	select {
+	case werr = <-done:
+	case <-time.After(120 * time.Second):
+		cmd.Process.Kill()
+		<-done
+		c.Inconclusive("watchdog on obiconvert at a terminal")
+		return
+	}
+	c.Count("evaluations", 1)
+	c.Count("command_runs", 1)
+	det := map[string]any{"args": args, "records": n, "paired": paired, "stderr": "a pseudo terminal (progress bar on)"}
+	if werr != nil {
+		det["error"] = werr.Error()
+		c.Violate("tty:exit", "obiconvert fails when its standard error is a terminal", det)
+		return
+	}
+	c.Key("tty/%d/%v", n, paired)
+	files := map[string]string{"single": out}
+	if paired {
+		files = map[string]string{"forward": filepath.Join(dir, "out_R1.fastq"), "reverse": filepath.Join(dir, "out_R2.fastq")}
+	}
+	for what, p := range files {
+		b, err := os.ReadFile(p)
+		if err != nil {
+			det["missing_file"] = filepath.Base(p)
+			c.Violate("tty:file-missing:"+what, "an output file is not written when the standard error is a terminal (every mate is lost)", det)
+			return
+		}
+		got, err := gen.ParseFastq(b)
+		if err != nil {
+			c.Violate("tty:output-unparsable", "the output is not FASTQ", det)
+			return
+		}
+		if d := itx.CompareSeq(gen.IDsOf(got), want); d != "" {
+			det["file"], det["got"], det["want"] = filepath.Base(p), len(got), len(want)
+			c.Violate("tty:"+d+":"+what, "obiconvert at a terminal does not output every record once, in order", det)
+			return
+		}
+	}
+	if c.Idx < 2 {
+		c.Sample(det)
+	}
 }
